@@ -240,26 +240,34 @@ def lossless_variants(cols: dict, roots: list, types: dict, r: random.Random, k_
     return out
 
 
-def override_variants(base_frame, r: random.Random, k: int) -> list:
-    """A computed column supplied as data (it then overrides its rule) in a losslessly
-    convertible dtype: its documented type is the rule's return annotation."""
+def override_variants(base_frame, annotated: dict, r: random.Random, k: int) -> list:
+    """A computed column supplied as data (it then overrides its rule).  Its documented
+    type is the rule's *return annotation* (not the dtype the rule happens to produce):
+    the reference supplies the column in the annotated type (no conversion), the variant
+    in another, losslessly convertible dtype (conversion expected and to be announced)."""
     import numpy as np
 
     out = []
     cand = []
     for c in base_frame.columns:
-        if c.endswith("_id"):
+        t = annotated.get(c)
+        if c.endswith("_id") or t is None:
             continue
         v = base_frame[c].to_numpy()
-        if v.dtype.kind == "f" and np.all(np.isfinite(v)) and np.all(v == np.round(v)) and np.all(np.abs(v) < 2**31):
+        if v.dtype.kind not in "fiub":
+            continue
+        x = v.astype(np.float64)
+        if not (np.all(np.isfinite(x)) and np.all(x == np.round(x)) and np.all(np.abs(x) < 2**31)):
+            continue
+        if t in (float, "float"):
             cand.append((c, "float64", r.choice(["int64", "int32"])))
-        elif v.dtype.kind in "iu":
+        elif t in (int, "int"):
             cand.append((c, "int64", "float64"))
-        elif v.dtype.kind == "b":
+        elif t in (bool, "bool") and set(np.unique(x).tolist()) <= {0.0, 1.0}:
             cand.append((c, "bool", r.choice(["int64", "float64"])))
     r.shuffle(cand)
     for c, native, dt in cand[:k]:
-        out.append({"cols": {}, "override": {c: dt}, "override_native": {c: native}, "override_values": {c: base_frame[c].to_numpy().tolist()}})
+        out.append({"cols": {}, "override": {c: dt}, "override_native": {c: native}, "override_values": {c: base_frame[c].to_numpy().astype(np.float64).tolist()}})
     return out
 
 
@@ -464,9 +472,9 @@ def explore(run_seed: int, cfg: dict) -> dict:
         if full[0] == "frame":
             # only policy rules with a return annotation have a documented type the data is converted to;
             # derived columns (automatic sums, time-unit variants) are used as supplied
-            annotated = {n for n, fn in functions.items() if "return" in getattr(fn, "__annotations__", {})} if isinstance(functions, dict) else set()
+            annotated = {n: fn.__annotations__["return"] for n, fn in functions.items() if "return" in getattr(fn, "__annotations__", {})} if isinstance(functions, dict) else {}
             inter = full[1][[c for c in full[1].columns if c not in config.DEFAULT_TARGETS and c in annotated]]
-            variants += override_variants(inter, r, cfg.get("var_override", 2))
+            variants += override_variants(inter, annotated, r, cfg.get("var_override", 2))
     if variants:
         variants.append({**variants[0], "repeat": True})  # the same converted table again: announced again?
     for v in variants:
